@@ -465,7 +465,7 @@ def run(tier):
         i, a, b, lang, mode, t1, t2, kind, tc = jobs[f["run"]]
         V.violation(f"{kind}:{mode}:{lang}:{t1}:{t2}", f"{kind}: renderings of a {lang} diff in mode {mode} ({t1} vs "
                     f"{t2 if kind == 'themes' else ('none' if kind == 'none' else b)}) differ at cell {f['at']} in more than the "
-                    "foreground colour", {"job": jobs[f["run"]][1:], "run": res[f["run"]][0].to_json()})
+                    "foreground colour", {"job": jobs[f["run"]][1:], "run": res[f["run"]][0].to_json(), "also": [res[f["run"]][1].to_json()]})
     rc = V.finish()
     core.write_evidence(PID, tier, "model_checking", {
         "states": tr.distinct, "transitions": tr.generated, "traces_validated_against_impl": len(events),
